@@ -21,9 +21,11 @@ def jobs(rng, thorough):
 
 
 def run(ctx: core.Ctx):
-    ctx.lean_stage(extra_props=("C06b", "Tie"))
-    results = b2check.run_b2(ctx, jobs, ["C07", "L5run"], label="api initialisation")
+    ctx.lean_stage(extra_props=("C06b", "C07a", "Tie"))
+    js = []
+    results = b2check.run_b2(ctx, lambda rng, th: js.extend(jobs(rng, th)) or js, ["C07", "L5run", "APIrun"], label="api initialisation")
     b2check.l5_fold(ctx, results, "YncaApi.initialize()")
+    b2check.api_fold(ctx, results, js)
     T = core.tables()
 
     def paused(rng, th):
